@@ -13,3 +13,4 @@ EXPLANATION = ('The laws are stated as lemmas over sem (complement, union via an
 LEVEL_TEXT = EXPLANATION
 TIMEOUT_MS = {'quick': 20000, 'thorough': 120000}
 MUSTFAIL_PER_FN = {'quick': 1, 'thorough': 6}
+BOUNDED = [laws_bounded('C05-laws', ['basic', 'forms', 'iframe', 'dir', 'ns', 'svghtml', 'plain', 'svg5'], ['core', 'html', 'ns'], nsnames=('none', 'svg', 'default-html'))]
